@@ -67,9 +67,21 @@ def build_shape(sp):
         polys = []
         for la in sp["lanelets"]:
             left, right = np.array(la["left"], dtype=float), np.array(la["right"], dtype=float)
-            polys.append(Lanelet(left, (left + right) / 2.0, right, la["id"]).polygon)
+            obj = Lanelet(left, (left + right) / 2.0, right, la["id"])
+            if _POOL is not None:
+                # the goal is built from the lanelets of a road network that lives on (the readers do exactly this:
+                # the goal's polygons ARE the lanelets' polygon objects)
+                key = (la["id"], str(la["left"]), str(la["right"]))
+                if key in _POOL:
+                    obj = _POOL[key]
+                elif all(k2[0] != la["id"] for k2 in _POOL):
+                    _POOL[key] = obj
+            polys.append(obj.polygon)
         return ShapeGroup(polys)
     raise RuntimeError(k)
+
+
+_POOL = None      # id -> Lanelet while a case is built "inside a scenario"
 
 
 def build_goal_state(g):
@@ -301,16 +313,32 @@ def observe(case):
         return ("exc", type(e).__name__)
 
 
-def observe_moved(case, prime):
+def observe_moved(case, prime, shared=False):
     """the case after the rigid motions case['hist'] applied to the goal region (GoalRegion.translate_rotate) and to
-    the states (State.translate_rotate); prime: the region has answered queries before it was moved"""
-    region = build_region(case)
+    the states (State.translate_rotate); prime: the region has answered queries before it was moved; shared: lanelet
+    goals are built from the lanelets of a LaneletNetwork, which is moved as well (before the region, as
+    Scenario.translate_rotate followed by PlanningProblemSet.translate_rotate does)"""
+    global _POOL
+    net = None
+    if shared:
+        from commonroad.scenario.lanelet import LaneletNetwork
+        _POOL = {}
+    try:
+        region = build_region(case)
+        if shared:
+            net = LaneletNetwork()
+            for la in _POOL.values():
+                net.add_lanelet(la)
+    finally:
+        _POOL = None
     states = [build_state(s) for s in case["states"]]
     try:
         if prime:
             for s in states:
                 region.is_reached(s)
         for t, a in case["hist"]:
+            if net is not None:
+                net.translate_rotate(np.array(t, dtype=float), float(a))
             region.translate_rotate(np.array(t, dtype=float), float(a))
             states = [s.translate_rotate(np.array(t, dtype=float), float(a)) for s in states]
             if prime and len(case["hist"]) > 1:
@@ -328,6 +356,13 @@ def observe_moved(case, prime):
 def oracle_hist(case):
     """membership must not depend on whether the goal region answered queries before it was moved"""
     a, b = observe_moved(case, True), observe_moved(case, False)
+    if a == b and any(g.get("pos") is not None and g["pos"]["k"] == "lanelet" for g in case["goals"]):
+        c = observe_moved(case, False, shared=True)
+        if c != b:
+            return (f"{case['op']}:history:answer after translate_rotate depends on the road network being moved too",
+                    f"{case['op']} answers {c} when the lanelet goal is built from the lanelets of a network that is moved "
+                    f"with the same translate_rotate{case['hist']} before the goal region, and {b} when the goal owns its "
+                    f"polygons: {brief(case)}")
     if a != b:
         cls = case["states"][0]["cls"]
         kinds = "+".join(sorted({g["pos"]["k"] for g in case["goals"] if g.get("pos") is not None})) or "no position"
